@@ -24,10 +24,19 @@ def main(argv):
 
     budget = ob.budget_s(tier)
     scale = float(os.environ.get("VERIF_BUDGET_SCALE", "1"))
-    res = engine.explore(run, shard=shard, nshards=nshards,
-                         budget_s=(30 if twin else budget * scale),
-                         per_path_timeout=ob.per_path_timeout, seed=seed, tier=tier,
-                         open_findings=open_ids)
+    if twin:
+        # reachability twin: some shard must reach the end of the obligation (tried in turn)
+        res = None
+        for probe in range(nshards):
+            res = engine.explore(run, shard=probe, nshards=nshards, budget_s=30,
+                                 per_path_timeout=ob.per_path_timeout, seed=seed, tier=tier,
+                                 open_findings=open_ids)
+            if res.get("violation") or res.get("harness_error"):
+                break
+    else:
+        res = engine.explore(run, shard=shard, nshards=nshards, budget_s=budget * scale,
+                             per_path_timeout=ob.per_path_timeout, seed=seed, tier=tier,
+                             open_findings=open_ids)
     res.update({"property": prop, "obligation": name, "tier": tier, "seed": seed,
                 "twin": twin})
     with open(out, "w") as fobj:
